@@ -46,6 +46,19 @@ CLAIMS = {
          "the known finding; Cancel and the first part of Commit keep the one-shot discipline (already-closed error, same store tx). Not decided: statement "
          "execution, atomicity and isolation over programs and sessions, pgsql front end.",
          "DESIGN.md 3 (C13), 11"),
+ "C05": ("Sequential clauses of MVCC over the real OngoingTx code: GetWithFilters / GetWithPrefixAndFilters / MarkPrefixScanned / key readers record exactly one "
+         "expectation per read that is not an own write (or fail with the limit error), own writes and read-only transactions record nothing, the read-set size "
+         "grows by at most one per call and never exceeds mvccReadSetLimit; the interceptor a transaction installs on its snapshot returns its own pending entry "
+         "(Tx() == 0); checkPreconditions returns nil only if every explicit precondition was checked and passed and every snapshot of the transaction was "
+         "examined (ghost call counters), and writes nothing but the ghost counters in every outcome. Far narrower than the property: serializability over "
+         "interleavings, the comparison of each re-evaluated expectation, range readers and prefix fingerprints are not decided.",
+         "DESIGN.md 3 (C05), 11"),
+ "C06": ("Precondition semantics only: the three Validate functions accept exactly the well-formed preconditions (non-empty key within maxKeyLen, TxID > 0); "
+         "the three Check functions are true exactly when their defining predicate holds on the answer of the index they are given (KeyMustExist, KeyMustNotExist, "
+         "KeyNotModifiedAfterTx incl. deleted/expired/unknown keys); checkPreconditions applies a transaction only if all preconditions were checked and hold; "
+         "hasPreconditions. Far narrower than the property: linearizability over concurrent histories, the indexing gate under concurrency, snapshots of "
+         "pkg/database and reads of in-flight transactions are not decided.",
+         "DESIGN.md 3 (C06)"),
  "C07": ("Commit-state functions of the replica path under value contracts: mayCommit moves the committed frontier exactly to the allowance, sets committedAlh "
          "to the Alh of the last committed ring-buffer entry, leaves everything on error and preserves the ordering lock invariant (committed <= allowance <= "
          "precommitted); AllowCommitUpto is monotone and capped by the precommitted id and fails without external allowance; DiscardPrecommittedTxsSince never "
